@@ -1010,7 +1010,9 @@ func (c *Ctx) defaultBodiesRule() {
 // templateByInterpretation decides the framing of WithHeader's template frame semantically: the closure (with every
 // helper it calls inlined) is interpreted abstractly; at the call that decodes the template, the byte layout of the
 // frame is reconstructed from the provenance of its buffer. It must read
-//     7e | payload | esc(code) | 7e
+//
+//	7e | payload | esc(code) | 7e
+//
 // where payload is the very slice the checksum was computed over, code is the result of CreateVerifyCode(payload), and
 // esc(code) is 7d 02 on paths that know code == 0x7e, 7d 01 on paths that know code == 0x7d, and the byte itself on
 // paths that exclude both values. decided=false when the layout cannot be reconstructed (the structural rule decides).
